@@ -43,7 +43,7 @@ def run(ctx):
     ctx.cov["stress_bursts"] = len(stress)
     ctx.cov["stress_calls"] = sum(s["calls"] for s in stress)
     ctx.cov["stress_calls_by_transport"] = {tp: sum(x["calls"] for x in stress if x.get("transport") == tp) for tp in sorted(set(x.get("transport", "udp") for x in stress))}
-    dead = [x for x in stress if x["calls"] - x["failed"] < (2 if x.get("transport") == "udp-token-reuse" else 20)]
+    dead = [x for x in stress if x["calls"] - x["failed"] < (2 if x.get("transport", "").startswith("udp-token-reuse") else 20)]
     if dead:
         raise vf.Machinery("stress bursts that did not run: %s" % dead[:2])
     ctx.cov["stress_calls_failed"] = sum(s["failed"] for s in stress)
